@@ -186,7 +186,7 @@ def gen_args(op, rng, version):
     elif op == "check":
         U()
         put(a, "usage_limits_count", maybe(rng, lambda: rng.choice([0, 1, 500, 2 ** 40])))
-        put(a, "cryptographic_usage_mask", maybe(rng, lambda: g_masks(rng), 0.9))
+        put(a, "cryptographic_usage_mask", maybe(rng, lambda: g_masks(rng), 0.6))
         put(a, "lease_time", maybe(rng, lambda: rng.choice([0, 1, 3600, 2 ** 32 - 1])))
     elif op == "get":
         U()
